@@ -362,6 +362,10 @@ func (p *sessionPort) blocking(name string, f func() []string, ticker bool) []st
 	default:
 	}
 	p.dead = name
+	if name == "readall" && p.cur != nil && p.cur.stalled() {
+		// the broker stalls inside the payload; whether the client could be woken is in the `ev stall` line
+		return append(append(out, "readall parked"), late...)
+	}
 	if name != "close" && p.atGate() {
 		// another goroutine is stalled inside conn.Write by the script (no deadline applies) and holds the lock this call
 		// waits for: the call is not stuck by itself. Close never waits for that: it interrupts the write.
